@@ -22,9 +22,14 @@ import (
 )
 
 // Rows "Hist" of ErrorsTrace.tla: one recipient failing over several delivery
-// attempts of the real queue. Input line: {"id":N,"in":{"mt":M,"seq":[term,...]}}
-// (a member of HistSpace of Errors.tla); attempt i of the recipient fails with
-// the error built from seq[i].
+// attempts of the real queue. Input line:
+// {"id":N,"in":{"mt":M,"seq":[term,...],"pt":P,"rs":B}} (a member of HistSpace of
+// Errors.tla); attempt i of the recipient fails with the error built from seq[i].
+// pt is where the target fails: "rcpt" (AddRcpt), "status" (per-recipient status of
+// a non-atomic body, module.PartialDelivery), "start", "body", "commit" (the whole
+// message); rs: the queue is closed and started again on the same spool between
+// the attempts. pt and rs are data dimensions of the replay: the rule and the
+// predicates of Errors.tla are the same for every value (see HistSpace).
 
 type HistCase struct {
 	ID  int             `json:"id"`
@@ -32,32 +37,92 @@ type HistCase struct {
 	In  struct {
 		Mt  int       `json:"mt"`
 		Seq [][]Layer `json:"seq"`
+		Pt  string    `json:"pt"`
+		Rs  bool      `json:"rs"`
 	} `json:"-"`
 }
 
-// seqTarget fails AddRcpt for a recipient with the error of its current attempt.
+type histGroup struct {
+	Mt int
+	Pt string
+	Rs bool
+}
+
+// seqTarget fails a recipient (points rcpt, status: key = recipient) or a whole
+// message (points start, body, commit: key = envelope sender) with the error of
+// its current attempt.
 type seqTarget struct {
+	pt    string
 	errs  map[string][]error
 	calls map[string]int
 }
 
-type seqDelivery struct{ t *seqTarget }
-
-func (t *seqTarget) Start(context.Context, *module.MsgMetadata, string) (module.Delivery, error) {
-	return &seqDelivery{t}, nil
-}
-func (d *seqDelivery) AddRcpt(_ context.Context, rcpt string, _ smtp.RcptOptions) error {
-	n := d.t.calls[rcpt]
-	d.t.calls[rcpt]++
-	es := d.t.errs[rcpt]
+func (t *seqTarget) cur(key string) error {
+	es := t.errs[key]
+	if len(es) == 0 {
+		return nil
+	}
+	n := t.calls[key] - 1
+	if n < 0 {
+		n = 0
+	}
 	if n >= len(es) {
 		n = len(es) - 1
 	}
 	return es[n]
 }
-func (d *seqDelivery) Body(context.Context, textproto.Header, buffer.Buffer) error { return nil }
-func (d *seqDelivery) Abort(context.Context) error                                 { return nil }
-func (d *seqDelivery) Commit(context.Context) error                                { return nil }
+
+type seqDelivery struct {
+	t     *seqTarget
+	from  string
+	rcpts []string
+}
+
+// seqPartDelivery additionally implements module.PartialDelivery (point "status").
+type seqPartDelivery struct{ *seqDelivery }
+
+func (t *seqTarget) Start(_ context.Context, _ *module.MsgMetadata, from string) (module.Delivery, error) {
+	d := &seqDelivery{t: t, from: from}
+	switch t.pt {
+	case "start":
+		t.calls[from]++
+		return nil, t.cur(from)
+	case "body", "commit":
+		t.calls[from]++
+	case "status":
+		return seqPartDelivery{d}, nil
+	}
+	return d, nil
+}
+func (d *seqDelivery) AddRcpt(_ context.Context, rcpt string, _ smtp.RcptOptions) error {
+	switch d.t.pt {
+	case "rcpt":
+		d.t.calls[rcpt]++
+		return d.t.cur(rcpt)
+	case "status":
+		d.t.calls[rcpt]++
+		d.rcpts = append(d.rcpts, rcpt)
+	}
+	return nil
+}
+func (d *seqDelivery) Body(context.Context, textproto.Header, buffer.Buffer) error {
+	if d.t.pt == "body" {
+		return d.t.cur(d.from)
+	}
+	return nil
+}
+func (d *seqDelivery) Abort(context.Context) error { return nil }
+func (d *seqDelivery) Commit(context.Context) error {
+	if d.t.pt == "commit" {
+		return d.t.cur(d.from)
+	}
+	return nil
+}
+func (d seqPartDelivery) BodyNonAtomic(_ context.Context, sc module.StatusCollector, _ textproto.Header, _ buffer.Buffer) {
+	for _, r := range d.rcpts {
+		sc.SetStatus(r, d.t.cur(r))
+	}
+}
 
 type histOut struct {
 	Attempts int    `json:"attempts"`
@@ -68,65 +133,100 @@ type histOut struct {
 	Raw      string `json:"raw,omitempty"`
 }
 
-// runHistories gives all histories with the same max_tries to one real queue as
-// one message with one recipient per history.
-func runHistories(t *testing.T, mt int, batch []HistCase) map[int]histOut {
+// runHistories runs all histories of one group (same max_tries, failure point,
+// restart flag) on one real queue: per-recipient points as one message with one
+// recipient per history (the recipients share the message's meta-data), message
+// level points as one message per history.
+func runHistories(t *testing.T, g histGroup, batch []HistCase) map[int]histOut {
 	res := map[int]histOut{}
+	mt := g.Mt
 	dir, err := os.MkdirTemp(workDir(), "spool")
 	if err != nil {
 		t.Fatal(err)
 	}
 	defer os.RemoveAll(dir)
+	perMsg := g.Pt == "start" || g.Pt == "body" || g.Pt == "commit"
 	synctest.Test(t, func(t *testing.T) {
-		tgt := &seqTarget{errs: map[string][]error{}, calls: map[string]int{}}
+		tgt := &seqTarget{pt: g.Pt, errs: map[string][]error{}, calls: map[string]int{}}
 		addr := func(id int) string { return "h" + strconv.Itoa(id) + "@example.org" }
+		sender := func(id int) string {
+			if perMsg {
+				return "s" + strconv.Itoa(id) + "@example.com"
+			}
+			return "sender@example.com"
+		}
+		key := func(id int) string {
+			if perMsg {
+				return sender(id)
+			}
+			return addr(id)
+		}
 		for _, c := range batch {
 			for _, term := range c.In.Seq {
 				e, err := Build(term)
 				if err != nil {
 					t.Fatal(err)
 				}
-				tgt.errs[addr(c.ID)] = append(tgt.errs[addr(c.ID)], e)
+				tgt.errs[key(c.ID)] = append(tgt.errs[key(c.ID)], e)
 			}
 		}
 		tr := vtrace.New(nil, 0)
 		tr.Keep = true
-		q, err := queue.VerifNewQueue(queue.VerifConfig{
-			Location: dir, Target: tgt, Bounce: &scripted.Bounce{Tr: tr}, MaxTries: mt, MaxParallelism: 1,
-			InitialRetryTime: retryDelay, RetryTimeScale: 1, PostInitDelay: 0,
-			Hostname: "mx.example.org", AutogenMsgDomain: "example.org",
-			Log: log.Logger{Out: log.NopOutput{}},
-		})
-		if err != nil {
-			t.Fatal(err)
+		open := func() *queue.Queue {
+			q, err := queue.VerifNewQueue(queue.VerifConfig{
+				Location: dir, Target: tgt, Bounce: &scripted.Bounce{Tr: tr}, MaxTries: mt, MaxParallelism: 1,
+				InitialRetryTime: retryDelay, RetryTimeScale: 1, PostInitDelay: 0,
+				Hostname: "mx.example.org", AutogenMsgDomain: "example.org",
+				Log: log.Logger{Out: log.NopOutput{}},
+			})
+			if err != nil {
+				t.Fatal(err)
+			}
+			return q
 		}
+		q := open()
 		ctx := context.Background()
-		from := "sender@example.com"
-		meta := &module.MsgMetadata{ID: "hist" + strconv.Itoa(mt), OriginalFrom: from,
-			SMTPOpts: smtp.MailOptions{UTF8: true}}
-		d, err := q.Start(ctx, meta, from)
-		if err != nil {
-			t.Fatal(err)
-		}
-		for _, c := range batch {
-			if err := d.AddRcpt(ctx, addr(c.ID), smtp.RcptOptions{}); err != nil {
+		submit := func(msgID, from string, cs []HistCase) {
+			meta := &module.MsgMetadata{ID: msgID, OriginalFrom: from, SMTPOpts: smtp.MailOptions{UTF8: true}}
+			d, err := q.Start(ctx, meta, from)
+			if err != nil {
+				t.Fatal(err)
+			}
+			for _, c := range cs {
+				if err := d.AddRcpt(ctx, addr(c.ID), smtp.RcptOptions{}); err != nil {
+					t.Fatal(err)
+				}
+			}
+			hdr := textproto.Header{}
+			hdr.Add("Subject", "verif")
+			hdr.Add("From", "<"+from+">")
+			if err := d.Body(ctx, hdr, buffer.MemoryBuffer{Slice: []byte("hello\r\n")}); err != nil {
+				t.Fatal(err)
+			}
+			if err := d.Commit(ctx); err != nil {
 				t.Fatal(err)
 			}
 		}
-		hdr := textproto.Header{}
-		hdr.Add("Subject", "verif")
-		hdr.Add("From", "<sender@example.com>")
-		if err := d.Body(ctx, hdr, buffer.MemoryBuffer{Slice: []byte("hello\r\n")}); err != nil {
-			t.Fatal(err)
-		}
-		if err := d.Commit(ctx); err != nil {
-			t.Fatal(err)
+		if perMsg {
+			for _, c := range batch {
+				submit("hist"+strconv.Itoa(c.ID), sender(c.ID), []HistCase{c})
+				synctest.Wait()
+			}
+		} else {
+			submit("hist"+strconv.Itoa(mt)+g.Pt, sender(0), batch)
 		}
 		for i := 0; i < 3*mt+3; i++ {
 			synctest.Wait()
 			ents, _ := os.ReadDir(dir)
 			if len(ents) == 0 {
 				break
+			}
+			if g.Rs {
+				// nothing is in flight (synctest.Wait): an orderly shut-down, then a new queue
+				// object on the same spool reads the stored meta-data back
+				q.Close()
+				q = open()
+				synctest.Wait()
 			}
 			time.Sleep(2 * retryDelay)
 		}
@@ -151,7 +251,7 @@ func runHistories(t *testing.T, mt int, batch []HistCase) map[int]histOut {
 			}
 		}
 		for _, c := range batch {
-			o := histOut{Attempts: tgt.calls[addr(c.ID)]}
+			o := histOut{Attempts: tgt.calls[key(c.ID)]}
 			if st, ok := status[addr(c.ID)]; ok {
 				o.Dsn = true
 				o.Status, _ = parseEnh(st)
@@ -192,7 +292,7 @@ func TestHist(t *testing.T) {
 	defer w.Flush()
 	sc := bufio.NewScanner(f)
 	sc.Buffer(make([]byte, 1<<20), 1<<26)
-	byMt := map[int][]HistCase{}
+	byMt := map[histGroup][]HistCase{}
 	var all []HistCase
 	for sc.Scan() {
 		var c HistCase
@@ -205,12 +305,21 @@ func TestHist(t *testing.T) {
 		if c.In.Mt < 1 || len(c.In.Seq) != c.In.Mt {
 			t.Fatalf("case %d: bad history", c.ID)
 		}
-		byMt[c.In.Mt] = append(byMt[c.In.Mt], c)
+		if c.In.Pt == "" {
+			c.In.Pt = "rcpt"
+		}
+		switch c.In.Pt {
+		case "rcpt", "status", "start", "body", "commit":
+		default:
+			t.Fatalf("case %d: unknown failure point %q", c.ID, c.In.Pt)
+		}
+		g := histGroup{c.In.Mt, c.In.Pt, c.In.Rs}
+		byMt[g] = append(byMt[g], c)
 		all = append(all, c)
 	}
 	outs := map[int]histOut{}
-	for mt, batch := range byMt {
-		for id, o := range runHistories(t, mt, batch) {
+	for g, batch := range byMt {
+		for id, o := range runHistories(t, g, batch) {
 			outs[id] = o
 		}
 	}
